@@ -13,7 +13,7 @@ NAMES = ["foo", "bar", "x", "a b", "name", "_priv", "é", "size2", "kids", "Targ
 assert not any(n in dir(NodeMixin) or n in ("parent", "children", "target") for n in NAMES)
 RULE = (
     "cases = histories over a growing universe: create a plain node (Node/AnyNode with keyword attributes, or a Node subclass whose attribute 'bar' is a property with a setter), create a link (SymlinkNode with "
-    "constructor keyword attributes, or a SymlinkNodeMixin subclass) to any existing node - plain node or link, same or other tree -, "
+    "constructor keyword attributes, or a SymlinkNodeMixin subclass that keeps `target` in the instance dictionary, in a slot, behind a read-only property or as a class-level attribute) to any existing node - plain node or link, same or other tree -, "
     "structural calls (parent/children assignment, children deletion) on links and targets, attribute writes through links and on targets, "
     "for attribute names from a pool of 21 (none of them part of the node API; several are substrings or extensions of 'parent', 'children', 'target'). After every step the whole table node x name read through "
     "getattr is compared with an attribute-store model (value or AttributeError) and the whole forest with the structural model of C02. "
@@ -132,7 +132,7 @@ def check_case(case, acc):
             if step[1] == "SymlinkNode":
                 node = SymlinkNode(target, **kwargs)
             else:
-                node = nodes.PlainLink(target)
+                node = nodes.make_link(step[1], target)
             world.add(node, "link", target=tlabel)
             world.store[world.resolve(tlabel)].update(kwargs)
             if world.kind[tlabel] == "link":
@@ -185,8 +185,8 @@ IDX = st.integers(0, 40)
 def random_cases(draw):
     step = st.one_of(
         st.tuples(st.just("new_plain"), st.sampled_from(["Node", "AnyNode", "PropNode"]), ATTRS).map(list),
-        st.tuples(st.just("new_link"), st.sampled_from(["SymlinkNode", "SymlinkNode", "PlainLink"]), IDX, ATTRS).map(list),
-        st.tuples(st.just("new_link"), st.sampled_from(["SymlinkNode", "PlainLink"]), IDX, ATTRS).map(list),
+        st.tuples(st.just("new_link"), st.sampled_from(["SymlinkNode", "SymlinkNode"] + nodes.LINK_KINDS), IDX, ATTRS).map(list),
+        st.tuples(st.just("new_link"), st.sampled_from(["SymlinkNode"] + nodes.LINK_KINDS), IDX, ATTRS).map(list),
         st.tuples(st.just("set"), IDX, st.sampled_from(NAMES), VALUE).map(list),
         st.tuples(st.just("set"), IDX, st.sampled_from(NAMES), VALUE).map(list),
         st.tuples(st.just("parent"), IDX, st.one_of(st.none(), IDX)).map(list),
@@ -201,7 +201,7 @@ def _systematic_cases(index, count):
     k = 0
     for cls0 in ("Node", "AnyNode", "PropNode"):
         for chain in range(1, 4):
-            for linkcls in ("SymlinkNode", "PlainLink"):
+            for linkcls in ["SymlinkNode"] + nodes.LINK_KINDS:
                 for ctor_kw in ([], [["foo", 1]], [["name", "renamed"], ["bar", "v"]], [["foo", None]]):
                     for write_at in range(0, chain + 1):
                         k += 1
